@@ -18,6 +18,10 @@ Next == UNCHANGED <<what, i>>
 (* C11, first sentence: the schema conforms to its declared draft and every $ref resolves                *)
 Inv_SchemaValid == what = "schema" /\ Sch[i].gen = "ok" => Sch[i].draft_ok /\ Sch[i].refs_ok
 
+\* an exception escaping the generator leaves an accepted meta-model without any schema (an error REPORT is a
+\* legitimate refusal and is C02's subject; a crash cannot satisfy "the generated schema is valid")
+Inv_GenerationDoesNotRaise == what = "schema" => Sch[i].gen # "exception"
+
 (* C11, second sentence: every document the SDK produces from an instance satisfying all invariants validates *)
 C == Cases[i]
 IsValidDoc == what = "case" /\ C.case.mut = "none" /\ C.sdk_valid
@@ -54,7 +58,8 @@ CaseCause(S, c) == IF IsStructural(c)
                    ELSE IF HasUnrecForm(S, "foreign_guard") THEN "foreign_guard"
                    ELSE IF S.kind = "bytes" /\ \E a \in AllAtoms(S) : a.k = "len" /\ Recognised(a) THEN "bytes_length"
                    ELSE "plain"
-SchKeys == [n \in 1..Len(Sch) |-> [cause |-> SchemaCause(Sch[n].scn), kind |-> Sch[n].scn.kind, origin |-> Sch[n].origin]]
+SchKeys == [n \in 1..Len(Sch) |-> [cause |-> SchemaCause(Sch[n].scn), kind |-> Sch[n].scn.kind, origin |-> Sch[n].origin,
+                                   multi_parent |-> (Sch[n].scn.shape # "chain")]]
 CaseKeys == [n \in 1..Len(Cases) |->
                LET S == Cases[n].scn  c == Cases[n].case
                IN  [cause |-> CaseCause(S, c), kind |-> S.kind, mut |-> c.mut, origin |-> Cases[n].origin,
